@@ -65,7 +65,7 @@ theorem goodComment_spec (out : List Char) (h : goodComment out = true) :
 theorem step_startTag_shape (o : Opts) (ext : Ext) (sub : Sub) (st : St) (name : List Char) (attrs : List Attr)
     (rest : List HTok) (st' : St) (out : List Char)
     (h : Verif.Model.Html.step o ext sub st (.startTag name attrs) rest = .ok (st', out)) :
-    out = [] ∨ ∃ as0 rawTag aout mt, specialAttrs ext name (attrs.map AttrSt.ofAttr) = .ok as0 ∧
+    out = [] ∨ ∃ as0 rawTag aout mt, specialAttrsOpt o ext name (attrs.map AttrSt.ofAttr) = .ok as0 ∧
       writeAttrs o ext sub name rawTag as0 none = .ok (aout, mt) ∧ out = '<' :: name ++ aout ++ ['>'] := by
   unfold Verif.Model.Html.step at h
   split at h
@@ -251,10 +251,10 @@ theorem run_cons_ok (o : Opts) (ext : Ext) (sub : Sub) (st : St) (t : HTok) (res
     own, and lead to a machine state of the next phase -/
 theorem classify_sound (o : Opts) (ext : Ext) (sub : Sub) (st st' : St) (ph : Phase) (t : HTok) (rest : List HTok)
     (o1 : List Char) (hstep : Verif.Model.Html.step o ext sub st t rest = .ok (st', o1))
-    (hg : (classify ext ph t o1).1 = true) :
-    pendC ph ++ o1 = (((classify ext ph t o1).2.2).map Piece.bytes).flatten ++ pendC (classify ext ph t o1).2.1 ∧
-    ∀ m, PhaseM ph m → ∃ m', PhaseM (classify ext ph t o1).2.1 m' ∧
-      Reads ((((classify ext ph t o1).2.2).map Piece.bytes).flatten) (intended (classify ext ph t o1).2.2) m m' := by
+    (hg : (classify o ext ph t o1).1 = true) :
+    pendC ph ++ o1 = (((classify o ext ph t o1).2.2).map Piece.bytes).flatten ++ pendC (classify o ext ph t o1).2.1 ∧
+    ∀ m, PhaseM ph m → ∃ m', PhaseM (classify o ext ph t o1).2.1 m' ∧
+      Reads ((((classify o ext ph t o1).2.2).map Piece.bytes).flatten) (intended (classify o ext ph t o1).2.2) m m' := by
   -- a data piece in the data phase
   have dataCase : ∀ (next : Phase), DataPieceOK o1 next →
       (pendC .data ++ o1 = (([Piece.data o1]).map Piece.bytes).flatten ++ pendC next ∨ True) →
@@ -347,8 +347,8 @@ theorem classify_sound (o : Opts) (ext : Ext) (sub : Sub) (st st' : St) (ph : Ph
 theorem walk_cons_ok (o : Opts) (ext : Ext) (sub : Sub) (st st' : St) (ph : Phase) (t : HTok) (rest : List HTok)
     (o1 : List Char) (ps : List Piece) (hstep : Verif.Model.Html.step o ext sub st t rest = .ok (st', o1))
     (h : walk o ext sub st ph (t :: rest) = .ok (true, ps)) :
-    (classify ext ph t o1).1 = true ∧ ∃ ps', walk o ext sub st' (classify ext ph t o1).2.1 rest = .ok (true, ps') ∧
-      ps = (classify ext ph t o1).2.2 ++ ps' := by
+    (classify o ext ph t o1).1 = true ∧ ∃ ps', walk o ext sub st' (classify o ext ph t o1).2.1 rest = .ok (true, ps') ∧
+      ps = (classify o ext ph t o1).2.2 ++ ps' := by
   simp only [walk, hstep] at h
   split at h
   · cases h
